@@ -76,7 +76,7 @@ def prune_cache(keep):
         if os.path.isdir(p) and re.fullmatch(r'[0-9a-f]{24}', d) and d != keep:
             ents.append((os.path.getmtime(p), p))
     ents.sort(reverse=True)
-    for _, p in ents[1:]:
+    for _, p in ents[7:]:
         shutil.rmtree(p, ignore_errors=True)
 
 def build_tree(need_release=False):
@@ -259,10 +259,15 @@ class Result:
             self.known.append(what)
     def finish(self):
         os.makedirs(REPLAY, exist_ok=True)
+        for old in os.listdir(REPLAY):
+            if old.startswith(self.pid + '-'):
+                os.remove(os.path.join(REPLAY, old))
         for what in self.known:
             print('KNOWN-FINDING: property=%s %s' % (self.pid, what))
         lines = []
-        for i, (rep, no_input) in enumerate(self.violations[:20]):
+        # the smallest failing cases first (a poor man's shrinker: the generators produce many sizes)
+        self.violations.sort(key=lambda v: (v[1], len(json.dumps(v[0], ensure_ascii=True))))
+        for i, (rep, no_input) in enumerate(self.violations[:10]):
             path = os.path.join(REPLAY, '%s-%d.json' % (self.pid, i))
             with open(path, 'w') as f:
                 json.dump(rep, f, indent=1, ensure_ascii=True)
